@@ -3,4 +3,12 @@
 //! ../harnesses.json with the property they serve and whether they are complete or bounded.
 #![allow(unused)]
 #[cfg(kani)]
+mod oracles;
+#[cfg(kani)]
+mod c01_pipeline;
+#[cfg(kani)]
+mod c01_emitters;
+#[cfg(kani)]
 mod c15_codecs;
+#[cfg(kani)]
+mod c03_frames;
